@@ -168,6 +168,11 @@ class C19(runner.Prop):
             'kwargs': st.lists(st.tuples(st.sampled_from(['k', 'a', 'z']), gen.tree_descs(3, kinds=VALUE_KINDS, leaf=LEAF, max_depth=2)).map(list),
                                max_size=2, unique_by=lambda kc: kc[0]),
             'inner_args': st.lists(gen.tree_descs(3, kinds=VALUE_KINDS, leaf=LEAF, max_depth=2), max_size=2),
+            # keywords bound by the inner partial and passed at call time, from the same small key set (overlaps:
+            # later bindings win, exactly as for nested functools.partial)
+            'inner_kwargs': st.lists(st.tuples(st.sampled_from(['k', 'a', 'z']), gen.tree_descs(2, kinds=VALUE_KINDS, leaf=LEAF, max_depth=2)).map(list),
+                                     max_size=2, unique_by=lambda kc: kc[0]),
+            'call_keys': st.lists(st.sampled_from(['k', 'a', 'z']), max_size=2, unique=True),
             'nested': st.sampled_from([0, 1, 1, 2]),
             'ns': st.sampled_from(['', U.NS, U.NS_UNKNOWN]), 'nil': st.booleans()})
         lay = layouts().map(lambda l: dict(l, kind='dataclass'))
@@ -380,9 +385,13 @@ class C19(runner.Prop):
         nested = case['nested']
         ctx.nontrivial(nested > 0)
         ctx.label(f'nested={nested}')
+        inner_kwargs = {k: gen.build(v) for k, v in case.get('inner_kwargs', [])} if nested else {}
+        call_kwargs = {k: ('call', k) for k in case.get('call_keys', [])}
         func = rec
         if nested >= 1:
-            func = functools.partial(rec, *inner_args) if nested == 1 else oft.partial(rec, *inner_args)
+            func = functools.partial(rec, *inner_args, **inner_kwargs) if nested == 1 else oft.partial(rec, *inner_args, **inner_kwargs)
+        if set(inner_kwargs) & set(kwargs) or set(call_kwargs) & (set(kwargs) | set(inner_kwargs)):
+            ctx.label('partial:overlapping_keywords')
         p = oft.partial(func, *args, **kwargs)
         kw = {'namespace': case['ns'], 'none_is_leaf': case['nil']}
         # never merged with a nested partial
@@ -416,8 +425,8 @@ class C19(runner.Prop):
             ctx.fail('partial/map_type', f'{type(q)}')
             return
         del rec.calls[:]
-        out_p = p(1, extra=2)
-        out_q = q(1, extra=2)
+        out_p = p(1, extra=2, **call_kwargs)
+        out_q = q(1, extra=2, **call_kwargs)
         margs = optree.tree_map(g, tuple(args), **kw)
         mkwargs = optree.tree_map(g, kwargs, **kw)
         if len(rec.calls) != 2:
@@ -426,10 +435,22 @@ class C19(runner.Prop):
         (a1, k1), (a2, k2) = rec.calls
         want1 = (*inner_args, *args, 1) if nested else (*args, 1)
         want2 = (*inner_args, *margs, 1) if nested else (*margs, 1)
-        if model.same_tree(tuple(want1), tuple(a1)) or model.same_tree({**kwargs, 'extra': 2}, dict(k1)):
-            ctx.fail('partial/original_call', f'{a1!r} {k1!r}')
-        d = model.same_tree(tuple(want2), tuple(a2), leaf_eq=lambda x, y: x == y) or \
-            model.same_tree({**mkwargs, 'extra': 2}, dict(k2), leaf_eq=lambda x, y: x == y)
+        # keyword precedence of nested functools.partial: inner bindings < outer bindings < call-time keywords
+        wk1 = {**inner_kwargs, **kwargs, 'extra': 2, **call_kwargs}
+        wk2 = {**inner_kwargs, **mkwargs, 'extra': 2, **call_kwargs}
+
+        def kw_diff(want, got, leaf_eq=None):
+            if set(want) != set(got):
+                return f'keyword names {sorted(got)} vs {sorted(want)}'
+            for k_ in want:
+                d_ = model.same_tree(want[k_], got[k_], leaf_eq=leaf_eq)
+                if d_:
+                    return f'keyword {k_}: {d_}'
+            return None
+        d = model.same_tree(tuple(want1), tuple(a1)) or kw_diff(wk1, dict(k1))
+        if d:
+            ctx.fail('partial/original_call', f'{d}: {a1!r} {k1!r}')
+        d = model.same_tree(tuple(want2), tuple(a2), leaf_eq=lambda x, y: x == y) or kw_diff(wk2, dict(k2), leaf_eq=lambda x, y: x == y)
         if d:
             ctx.fail('partial/mapped_call', f'{d}: {a2!r} {k2!r}')
         # round trip
